@@ -213,6 +213,68 @@ def run_thread_start_fault(b: Batch, led, cls_name, running):
     judge(b, out, c.log, {"thread_start_fault": [cls_name, running]}, rs)
 
 
+def run_without_stdin(b: Batch):
+    """A daemon-style process (descriptor 0 closed): inotify_init() then returns 0.  Start/stop cycles must leave no inotify
+    descriptor or pipe behind there either (a child process, audited through /proc/self/fd)."""
+    script = r'''
+import os, sys, json
+os.close(0)
+import tempfile, shutil, time
+from watchdog.observers.inotify import InotifyObserver
+class H:
+    def dispatch(self, e): pass
+def snap():
+    out = {}
+    for fd in os.listdir("/proc/self/fd"):
+        try:
+            out[int(fd)] = os.readlink("/proc/self/fd/" + fd)
+        except OSError:
+            pass
+    return out
+base = tempfile.mkdtemp()
+os.mkdir(base + "/d")
+before = snap()
+for i in range(6):
+    o = InotifyObserver()
+    w = o.schedule(H(), base, recursive=True)
+    o.start()
+    open(base + "/f%d" % i, "w").close()
+    time.sleep(0.02)
+    if i % 2:
+        o.unschedule(w)
+    try:
+        o.schedule(H(), base + "/missing", recursive=True)
+    except OSError:
+        pass
+    o.stop(); o.join()
+after = snap()
+shutil.rmtree(base)
+left = {fd: t for fd, t in after.items() if fd not in before and ("inotify" in t or "pipe" in t)}
+zero = after.get(0) if 0 not in before else None
+print(json.dumps({"left": left, "fd0": zero}))
+'''
+    d = tempfile.mkdtemp(prefix="wdv-nostdin-")
+    try:
+        sf = os.path.join(d, "s.py")
+        with open(sf, "w") as fh:
+            fh.write(script)
+        p = subprocess.run([sys.executable, sf], env=dict(os.environ), capture_output=True, timeout=120)
+        b.case()
+        if p.returncode != 0:
+            b.inconc(f"no-stdin child could not run: rc={p.returncode} {p.stderr[-300:]!r}")
+            return
+        import json as _json
+
+        res = _json.loads(p.stdout.decode().strip().splitlines()[-1])
+        b.count("no_stdin_cycles", 6)
+        b.nontrivial(["nostdin"])
+        if res["left"] or (res["fd0"] and ("inotify" in res["fd0"] or "pipe" in res["fd0"])):
+            b.violation("descriptor-leak", f"process without stdin: after 6 start/stop cycles these descriptors are still open: {res}", witness=res,
+                        replay_spec={"kind": "nostdin"})
+    finally:
+        shutil.rmtree(d, ignore_errors=True)
+
+
 def strace_crosscheck(b: Batch):
     """Independent syscall-level cross-check: a child process runs start/stop cycles under strace -f; every close() of a
     descriptor obtained from inotify_init/pipe must succeed exactly once and no traced syscall may return EBADF."""
@@ -303,6 +365,7 @@ def plan(tier, seed, jobs):
             specs.append({"kind": "inject", "ndirs": nd, "budget_s": 60})
         specs.append({"kind": "longlived", "n": 3, "rounds": 60, "seed": seed, "budget_s": 60})
         specs.append({"kind": "tsf"})
+        specs.append({"kind": "nostdin"})
         for j in range(6):
             specs.append({"kind": "holds", "seed": seed, "j": j, "of": 6, "budget_s": 60})
         specs.append({"kind": "strace"})
@@ -314,6 +377,7 @@ def plan(tier, seed, jobs):
         for j in range(4):
             specs.append({"kind": "longlived", "n": 10, "rounds": 400, "seed": seed + j, "budget_s": 800})
         specs.append({"kind": "tsf"})
+        specs.append({"kind": "nostdin"})
         for j in range(jobs):
             specs.append({"kind": "holds", "seed": seed, "j": j, "of": jobs, "budget_s": 900, "reps": 10})
         specs.append({"kind": "strace"})
@@ -335,6 +399,8 @@ def run_batch(spec):
                 break
             run_cycle(b, r, led)
         pass
+    elif k == "nostdin":
+        run_without_stdin(b)
     elif k == "tsf":
         for cls_name in ("InotifyEmitter", "InotifyBuffer"):
             for running in (True, False):
